@@ -19,14 +19,31 @@ from vlib import graphs
 from vlib.cases import Case, Sub, call, evaluate
 from vlib.core import enc_list
 
-RULE = ('WL: all directed graphs n<=3, all undirected graphs n<=5 (quick: n<=4 + sample of n=5; thorough: + n=6 sample), '
-        'structured random graphs n<=12, x max_iter in {-1,1,2}; relation: the same graphs x all n! permutations for n<=4 '
-        '(quick: 3 random permutations) and random permutations beyond x 30 algorithm variants; a case is non-trivial when '
-        'the graph has an edge and the permutation is not the identity; distinct = distinct (entry, graph, permutation)')
-ASSUMPTIONS = ['the float hash of WL (sum of (-pi/3.15)^colour, epsilon 1e-10) is collision-free on the generated graphs: '
-               'checked by the spec line (partition = exact refinement), not proved',
+RULE = ('WL run + spec lines: all directed graphs n<=3, all undirected graphs n=4 (thorough: + n=5), a sample of n=5 (thorough: '
+        'n=6), structured random graphs n<=12 (half with unsorted indices), matrices with duplicate column indices and stored '
+        'zeros, the empty matrix, x max_iter in {-1,0,1,2,n+3}; "twin" graphs (two disjoint renumbered copies of a dense '
+        '14-26 node graph); the hash-collision family (the 63-node witness of corpus/C02.jsonl, renumbered copies, copies '
+        'with an extra disjoint cycle); are_isomorphic run lines: (G, pi G) and non-isomorphic pairs with equal n and nnz x '
+        'max_iter. Relation f(P A P^T) = P f(A) on the implementation: sampled small graphs (quick: 10 undirected n=4, 6 '
+        'digraphs n=3; thorough: all of them), structured weighted graphs n<=10, dense irregular graphs n<=14, x the '
+        'algorithm table (evidence: relation:<entry> counts) x all n! permutations for n<=4 in the thorough tier, 2 random '
+        'permutations in the quick tier; a bipartite stream: random rectangular B with independent row and column '
+        'permutations. A relation case is non-trivial when the graph has an edge, the permutation is not the identity and '
+        'neither numbering raises; distinct = distinct (entry, graph, permutation)')
+ASSUMPTIONS = ['the float hash of WL (sum of (-pi/3.15)^colour, epsilon 1e-10) is NOT collision-free (theorem '
+               'wl_float_hash_collision, known finding F-C02-wl-hash-collision); outside the collision family the spec line '
+               '(partition = exact refinement) is checked on every generated graph',
                'float64 outputs compared within 1e-9, float32 solvers within 2e-5; eigen/singular values within 1e-7',
-               'deterministic configurations only (no shuffling, fixed budgets); Propagation (index order dependent) is excluded']
+               'deterministic configurations only (no shuffling, fixed budgets); Propagation (index order dependent) is excluded',
+               'iterative solvers (bicgstab, lanczos) are external: a case where the solver misses its own contract (its scores '
+               'differ from the power iteration on the same numbering by more than 1e-5) is counted (contract-unmet:<solver>) and '
+               'skipped; C04 owns that contract',
+               'core numbers, triangles, Betweenness, Closeness are run on directed graphs too; count_cliques and the clustering '
+               'coefficient only on undirected graphs (count_cliques orients edges by core order without symmetrising: on a '
+               'digraph its value depends on the numbering; C11 scopes it to undirected graphs), Dasgupta cost / TSD on the '
+               'undirected graphs Paris accepts',
+               'a numbering on which both calls raise the same exception class is counted (relation-exc:<entry>) and is not an '
+               'evaluation of the relation; an entry without any non-trivial evaluation in a run is a tool failure']
 
 
 def _bits(x):
@@ -53,7 +70,7 @@ def twin_graphs(ctx, count):
     return out
 
 
-def wl_twin_cases(ctx, mats):
+def wl_twin_cases(ctx, mats, perm_fixed=None):
     from sknetwork.topology import color_weisfeiler_lehman, are_isomorphic
     cases = []
     rng = ctx.rng
@@ -68,8 +85,9 @@ def wl_twin_cases(ctx, mats):
         cases.append(Case(('wl-twin', _g(a)), {'entry': 'color_weisfeiler_lehman', 'max_iter': -1, 'family': 'twins'}, run, impl, spec, True,
                           {'f': 'color_weisfeiler_lehman', 'graph': gdesc, 'max_iter': -1}))
         # the statement on the implementation: a renumbered copy gets the renumbered colours and passes the test
-        perm = list(range(n))
-        rng.shuffle(perm)
+        perm = list(perm_fixed) if perm_fixed is not None else list(range(n))
+        if perm_fixed is None:
+            rng.shuffle(perm)
         b = graphs.permute_csr(a, perm)
         try:
             ok1 = np.array_equal(np.asarray(color_weisfeiler_lehman(b)), _perm_vec(np.asarray(color_weisfeiler_lehman(a)), perm))
@@ -85,25 +103,145 @@ def wl_twin_cases(ctx, mats):
     return cases
 
 
-def wl_cases(ctx, mats):
+def wl_cases(ctx, mats, family=None, max_iters=None):
     from sknetwork.topology import color_weisfeiler_lehman
     cases = []
     for a in mats:
         n = a.shape[0]
-        if n == 0:
-            continue
         pw = (-np.pi / 3.15) ** np.arange(n, dtype=np.double)
         pwt = enc_list([_bits(x) for x in pw])
         gdesc = {'n': n, 'indptr': a.indptr.tolist(), 'indices': a.indices.tolist()}
-        for mi in (-1, 1, 2):
+        for mi in (max_iters or (-1, 0, 1, 2, n + 3)):
             impl = call(lambda: 'ok ' + enc_list(color_weisfeiler_lehman(a, max_iter=mi)))
             run = 'c02.wl %s %s %d' % (_g(a), pwt, mi)
             spec = None
             if impl.startswith('ok'):
-                k = n if mi < 0 else min(mi, n)
-                spec = 'c02.spec_groups %s %d %s %s' % (_g(a), k, impl[3:], '1' if mi < 0 else '0')
-            cases.append(Case(('wl', _g(a), mi), {'entry': 'color_weisfeiler_lehman', 'max_iter': mi}, run, impl, spec,
-                              a.nnz > 0, {'f': 'color_weisfeiler_lehman', 'graph': gdesc, 'max_iter': mi}))
+                k = n if (mi < 0 or mi > n) else mi
+                if n > 14:
+                    spec = 'c02.spec_stable %s %s' % (_g(a), impl[3:]) if k == n else None
+                else:
+                    spec = 'c02.spec_groups %s %d %s %s' % (_g(a), k, impl[3:], '1' if k == n else '0')
+            sig = {'entry': 'color_weisfeiler_lehman', 'max_iter': mi}
+            if family:
+                sig['family'] = family
+            cases.append(Case(('wl', _g(a), mi), sig, run, impl, spec, a.nnz > 0,
+                              {'f': 'color_weisfeiler_lehman', 'graph': gdesc, 'max_iter': mi, 'family': family}))
+    return cases
+
+
+def _csr_of(g):
+    return sparse.csr_matrix((np.ones(len(g['indices'])), np.array(g['indices'], dtype=np.int32),
+                              np.array(g['indptr'], dtype=np.int32)), shape=(g['n'], g['n']))
+
+
+def corpus_entries():
+    import json
+    import os
+    path = os.path.join(os.path.dirname(os.path.dirname(os.path.dirname(os.path.abspath(__file__)))), 'corpus', 'C02.jsonl')
+    out = []
+    if os.path.exists(path):
+        for ln in open(path):
+            ln = ln.strip()
+            if ln and not ln.startswith('#'):
+                out.append(json.loads(ln))
+    return out
+
+
+def collision_graphs(ctx, count):
+    """The hash-collision family: the recorded witness (two neighbour-colour multisets whose float hashes differ by
+    2.7e-13 < epsilon), renumbered copies (summation order), copies with an extra disjoint cycle (other n, same ranks)."""
+    rng = ctx.rng
+    out = []
+    for e in corpus_entries():
+        if e.get('family') != 'hash-collision':
+            continue
+        a = _csr_of(e['graph'])
+        out.append(a)
+        n = a.shape[0]
+        for _ in range(count):
+            b = a
+            if rng.random() < 0.5:
+                m = rng.randint(3, 6)     # a disjoint cycle: degree 2, a colour that exists already
+                es = [(n + i, n + (i + 1) % m) for i in range(m)]
+                es += [(j, i) for i, j in es]
+                coo = a.tocoo()
+                rows = list(coo.row) + [x for x, _ in es]
+                cols = list(coo.col) + [y for _, y in es]
+                b = sparse.csr_matrix((np.ones(len(rows)), (rows, cols)), shape=(n + m, n + m))
+            perm = list(range(b.shape[0]))
+            rng.shuffle(perm)
+            out.append(graphs.permute_csr(b, perm))
+    return out
+
+
+def _relabel_raw(a, perm):
+    """the renumbered matrix with its stored structure kept (duplicates, stored zeros, order inside the rows)"""
+    n = a.shape[0]
+    inv = [0] * n
+    for i, p in enumerate(perm):
+        inv[p] = i
+    indptr, indices, data = [0], [], []
+    for r in range(n):
+        i = inv[r]
+        for k in range(a.indptr[i], a.indptr[i + 1]):
+            indices.append(perm[a.indices[k]])
+            data.append(a.data[k])
+        indptr.append(len(indices))
+    return sparse.csr_matrix((np.array(data, dtype=float), np.array(indices, dtype=np.int32), np.array(indptr, dtype=np.int32)), shape=(n, n))
+
+
+def iso_cases_pair(ctx, a, b, mi):
+    from sknetwork.topology import are_isomorphic
+    n = a.shape[0]
+    pw = (-np.pi / 3.15) ** np.arange(n, dtype=np.double)
+    impl = call(lambda: 'ok %d' % int(bool(are_isomorphic(a, b, max_iter=mi))))
+    run_line = 'c02.iso %s %s %s %d' % (_g(a), _g(b), enc_list([_bits(x) for x in pw]), mi)
+    return [Case(('iso', _g(a), _g(b), mi), {'entry': 'are_isomorphic', 'max_iter': mi}, run_line, impl, None, True,
+                 {'f': 'are_isomorphic', 'graph': {'n': n, 'indptr': a.indptr.tolist(), 'indices': a.indices.tolist()},
+                  'graph2': {'n': b.shape[0], 'indptr': b.indptr.tolist(), 'indices': b.indices.tolist()}, 'max_iter': mi})]
+
+
+def iso_cases(ctx, mats, quick):
+    """are_isomorphic run lines: a graph against a renumbered copy of itself and against other graphs with the same
+    number of nodes and stored entries, for several max_iter."""
+    from sknetwork.topology import are_isomorphic
+    rng = ctx.rng
+    cases = []
+    by_key = {}
+    for a in mats:
+        by_key.setdefault((a.shape[0], a.nnz), []).append(a)
+    pairs = []
+    for (n, nnz), group in by_key.items():
+        for a in group:
+            perm = list(range(n))
+            rng.shuffle(perm)
+            pairs.append((a, _relabel_raw(a, perm), 'relabelled'))
+        for i in range(len(group)):
+            for j in range(i + 1, len(group)):
+                pairs.append((group[i], group[j], 'other'))
+    if quick and len(pairs) > 260:
+        rel = [p for p in pairs if p[2] == 'relabelled']
+        oth = [p for p in pairs if p[2] == 'other']
+        pairs = rng.sample(rel, min(len(rel), 80)) + rng.sample(oth, min(len(oth), 180))
+    for a, b, kind in pairs:
+        n = a.shape[0]
+        pw = (-np.pi / 3.15) ** np.arange(n, dtype=np.double)
+        pwt = enc_list([_bits(x) for x in pw])
+        mis = (-1, 0, 1, 2, n + 3) if not quick else (-1, rng.choice([0, 1, 2, n + 3]))
+        for mi in mis:
+            impl = call(lambda: 'ok %d' % int(bool(are_isomorphic(a, b, max_iter=mi))))
+            run = 'c02.iso %s %s %s %d' % (_g(a), _g(b), pwt, mi)
+            cases.append(Case(('iso', _g(a), _g(b), mi), {'entry': 'are_isomorphic', 'pair': kind, 'max_iter': mi}, run, impl, None,
+                              a.nnz > 0, {'f': 'are_isomorphic', 'graph': {'n': n, 'indptr': a.indptr.tolist(), 'indices': a.indices.tolist()},
+                                          'graph2': {'n': b.shape[0], 'indptr': b.indptr.tolist(), 'indices': b.indices.tolist()},
+                                          'max_iter': mi}))
+            ctx.count('iso:%s:%s' % (kind, impl))
+            # a matrix without stored entries is refused (ValueError 'The input matrix is empty'): a refusal, not a verdict
+            if kind == 'relabelled' and impl != 'ok 1' and not (a.nnz == 0 and impl == 'err ValueError'):
+                ctx.spec_fail({'entry': 'are_isomorphic', 'relation': 'relabel'},
+                              {'f': 'are_isomorphic', 'graph': {'n': n, 'indptr': a.indptr.tolist(), 'indices': a.indices.tolist()},
+                               'graph2': {'n': n, 'indptr': b.indptr.tolist(), 'indices': b.indices.tolist()}, 'max_iter': mi},
+                              {'why': 'are_isomorphic(G, relabelled G) = %s' % impl})
     return cases
 
 
@@ -134,11 +272,11 @@ def _algos():
         A['PageRank(%s,seeds)' % solver] = ('vec', (lambda a, x, s=solver: PageRank(solver=s, n_iter=60, tol=1e-12).fit_predict(a, weights=x['weights'])), tol, 'any')
     A['Katz'] = ('vec', lambda a, x: Katz().fit_predict(a), 1e-9, 'any')
     A['HITS(hubs)'] = ('vec', lambda a, x: HITS().fit(a).scores_row_, 1e-6, 'simple-top-singular')
-    A['Closeness'] = ('vec', lambda a, x: Closeness().fit_predict(a), 1e-9, 'connected')
-    A['Betweenness'] = ('vec', lambda a, x: Betweenness().fit_predict(a), 2e-5, 'undirected')   # float32 kernel
+    A['Closeness'] = ('vec', lambda a, x: Closeness().fit_predict(a), 1e-9, 'weakly-connected')
+    A['Betweenness'] = ('vec', lambda a, x: Betweenness().fit_predict(a), 2e-5, 'weakly-connected')   # float32 kernel
     A['get_distances'] = ('vec', lambda a, x: get_distances(a, source=x['sources']), 0, 'any')
     A['get_shortest_path'] = ('mat', lambda a, x: get_shortest_path(a, source=x['sources']), 0, 'any')
-    A['core'] = ('vec', lambda a, x: get_core_decomposition(a), 0, 'undirected')
+    A['core'] = ('vec', lambda a, x: get_core_decomposition(a), 0, 'any')
     A['WL'] = ('vec', lambda a, x: color_weisfeiler_lehman(a), 0, 'any')
     A['Diffusion'] = ('vec', lambda a, x: Diffusion(n_iter=5).fit_predict(a, values=x['values']), 1e-9, 'any')
     A['Dirichlet'] = ('vec', lambda a, x: Dirichlet(n_iter=8).fit_predict(a, values=x['values']), 1e-9, 'any')
@@ -151,7 +289,7 @@ def _algos():
         return np.where(margin > 1e-6, clf.labels_, -2)
     A['DiffusionClassifier(labels)'] = ('vec', _dc_labels, 0, 'any')
     A['PageRankClassifier(probs)'] = ('rows', lambda a, x: PageRankClassifier().fit(a, labels=x['labels']).probs_.toarray(), 1e-7, 'any')
-    A['triangles'] = ('inv', lambda a, x: count_triangles(a), 0, 'undirected')
+    A['triangles'] = ('inv', lambda a, x: count_triangles(a), 0, 'any')
     A['cliques3'] = ('inv', lambda a, x: count_cliques(a, 3), 0, 'undirected')
     A['cliques4'] = ('inv', lambda a, x: count_cliques(a, 4), 0, 'undirected')
     A['cliques5'] = ('inv', lambda a, x: count_cliques(a, 5), 0, 'undirected')
@@ -161,6 +299,13 @@ def _algos():
     A['spectrum'] = ('inv', lambda a, x: np.sort(Spectral(n_components=min(2, a.shape[0] - 2)).fit(a).eigenvalues_), 1e-7, 'spectral')
     A['singular_values'] = ('inv', lambda a, x: np.sort(SVD(n_components=min(2, a.shape[0] - 2)).fit(a).singular_values_), 1e-7, 'spectral')
     return A
+
+
+def _iterative_solver(name):
+    for sv in ('bicgstab', 'lanczos'):
+        if name.startswith('PageRank(' + sv):
+            return sv
+    return None
 
 
 def _hier_algos():
@@ -214,6 +359,8 @@ def _suitable(needs, a, undirected, connected):
         return undirected
     if needs == 'connected':
         return undirected and connected
+    if needs == 'weakly-connected':
+        return connected
     if needs == 'spectral':
         return undirected and connected and n >= 4
     if needs == 'simple-top-singular':
@@ -225,7 +372,8 @@ def _suitable(needs, a, undirected, connected):
     return True
 
 
-def relation_cases(ctx, items, perms_per, sub=None):
+def relation_cases(ctx, items, perms_per, sub=None, fixed=None):
+    """`fixed` = (perm, aux) re-runs one recorded case exactly (replay)."""
     tgt = sub or ctx
     rng = ctx.rng
     algos = _algos()
@@ -251,7 +399,11 @@ def relation_cases(ctx, items, perms_per, sub=None):
                 rng.shuffle(p)
                 perms.append(tuple(p))
         aux = _aux(rng, n)
+        if fixed is not None:
+            perms = [tuple(fixed[0])]
+            aux = fixed[1]
         base = {}
+        ref = {}
         with warnings.catch_warnings():
             warnings.simplefilter('ignore')
             for name, (kind, f, tol, needs) in algos.items():
@@ -287,10 +439,25 @@ def relation_cases(ctx, items, perms_per, sub=None):
                     except Exception as e:  # noqa
                         out = ('EXC', type(e).__name__)
                     y = base[name]
+                    solver = _iterative_solver(name)
+                    if solver and not (isinstance(y, tuple) or isinstance(out, tuple)):
+                        # the external solver's own contract, on each numbering: close to the power iteration
+                        pname = name.replace(solver, 'piteration')
+                        try:
+                            ref_a = base[pname]
+                            ref_b = algos[pname][1](b, aux_p)
+                            unmet = (not np.allclose(y, ref_a, atol=1e-5, rtol=0)) or (not np.allclose(out, ref_b, atol=1e-5, rtol=0))
+                        except Exception:  # noqa
+                            unmet = False
+                        if unmet:
+                            tgt.count('contract-unmet:' + solver)
+                            continue
                     tgt.count('relation:' + name)
                     if isinstance(y, tuple) or isinstance(out, tuple):
                         ok = isinstance(y, tuple) and isinstance(out, tuple) and y == out
                         tgt.case(key, False, None)
+                        if ok:
+                            tgt.count('relation-exc:' + name)
                         if not ok:
                             tgt.spec_fail(sig, desc, {'why': 'one numbering raises, the other does not', 'base': repr(y)[:80], 'relabelled': repr(out)[:80]})
                         continue
@@ -306,6 +473,7 @@ def relation_cases(ctx, items, perms_per, sub=None):
                     else:
                         ok = np.allclose(np.asarray(out, dtype=float), np.asarray(y, dtype=float), atol=tol, rtol=tol, equal_nan=True)
                     tgt.case(key, True, {'entry': name, 'graph': gdesc['dense'], 'perm': list(perm), 'holds': bool(ok)})
+                    tgt.count('relation-evaluated:' + name)
                     if not ok:
                         tgt.spec_fail(sig, desc, {'why': 'output for the renumbered graph is not the renumbered output',
                                                   'base': np.asarray(y, dtype=float).tolist() if kind != 'mat' else None,
@@ -338,9 +506,143 @@ def relation_cases(ctx, items, perms_per, sub=None):
                                   {'why': 'are_isomorphic(G, relabelled G) is not True', 'got': iso})
 
 
+def _perm_rows(y, perm):
+    y = np.asarray(y)
+    out = np.empty_like(y)
+    out[np.asarray(perm)] = y
+    return out
+
+
+def _bip_algos():
+    """name -> function(B, aux) -> dict of outputs; keys ending in _row / _col are permuted by the row / column
+    renumbering, keys starting with inv are unchanged."""
+    from sknetwork.ranking import PageRank, Katz, HITS
+    from sknetwork.regression import Diffusion, Dirichlet
+    from sknetwork.classification import DiffusionClassifier, PageRankClassifier
+    from sknetwork.clustering import get_modularity
+    from sknetwork.embedding import SVD
+
+    def rc(est, **kw):
+        return lambda b, x: (lambda e: {'scores_row': e.scores_row_, 'scores_col': e.scores_col_})(est().fit(b, **{k: x[v] for k, v in kw.items()}))
+
+    def vals(est):
+        def f(b, x):
+            e = est().fit(b, values_row=x['values_row'], values_col=x['values_col'])
+            return {'values_row': e.values_row_, 'values_col': e.values_col_}
+        return f
+
+    def probs(est):
+        def f(b, x):
+            e = est().fit(b, labels_row=x['labels_row'], labels_col=x['labels_col'])
+            return {'probs_row': e.probs_row_.toarray(), 'probs_col': e.probs_col_.toarray()}
+        return f
+    A = {}
+    A['bip:PageRank'] = (rc(lambda: PageRank(solver='piteration', n_iter=60, tol=1e-12)), 1e-9)
+    A['bip:PageRank(seeds)'] = (rc(lambda: PageRank(solver='piteration', n_iter=60, tol=1e-12), weights_row='weights_row', weights_col='weights_col'), 1e-9)
+    A['bip:PageRank(RH)'] = (rc(lambda: PageRank(solver='RH', n_iter=60, tol=1e-12)), 1e-9)
+    A['bip:Katz'] = (rc(lambda: Katz()), 1e-9)
+    A['bip:Diffusion'] = (vals(lambda: Diffusion(n_iter=5)), 1e-9)
+    A['bip:Dirichlet'] = (vals(lambda: Dirichlet(n_iter=8)), 1e-9)
+    A['bip:DiffusionClassifier'] = (probs(lambda: DiffusionClassifier()), 1e-9)
+    A['bip:PageRankClassifier'] = (probs(lambda: PageRankClassifier()), 1e-7)
+    A['bip:modularity'] = (lambda b, x: {'inv': get_modularity(b, x['part_row'], x['part_col'])}, 1e-12)
+    A['bip:singular_values'] = (lambda b, x: {'inv': np.sort(SVD(n_components=min(2, min(b.shape) - 1)).fit(b).singular_values_)}, 1e-7)
+    return A
+
+
+def _bip_aux(rng, nr, nc):
+    def w(n):
+        v = np.array([rng.choice([0.0, 1.0, 2.0]) for _ in range(n)])
+        if v.sum() == 0:
+            v[rng.randrange(n)] = 1.0
+        return v
+    return {'weights_row': w(nr), 'weights_col': w(nc),
+            'values_row': {int(i): float(rng.choice([0, 1, 3])) for i in rng.sample(range(nr), min(nr, 2))},
+            'values_col': {int(i): float(rng.choice([0, 2])) for i in rng.sample(range(nc), 1)},
+            'labels_row': {int(i): t % 2 for t, i in enumerate(rng.sample(range(nr), min(nr, 2)))},
+            'labels_col': {int(i): 1 for i in rng.sample(range(nc), 1)},
+            'part_row': np.array([rng.randrange(2) for _ in range(nr)]), 'part_col': np.array([rng.randrange(2) for _ in range(nc)])}
+
+
+def _bip_perm_aux(x, pr, pc):
+    pr, pc = list(pr), list(pc)
+    return {'weights_row': _perm_vec(x['weights_row'], pr), 'weights_col': _perm_vec(x['weights_col'], pc),
+            'values_row': {int(pr[k]): v for k, v in x['values_row'].items()},
+            'values_col': {int(pc[k]): v for k, v in x['values_col'].items()},
+            'labels_row': {int(pr[k]): v for k, v in x['labels_row'].items()},
+            'labels_col': {int(pc[k]): v for k, v in x['labels_col'].items()},
+            'part_row': _perm_vec(x['part_row'], pr), 'part_col': _perm_vec(x['part_col'], pc)}
+
+
+def bipartite_relation_cases(ctx, count, sub=None, fixed=None):
+    """f(P_r B P_c^T): row outputs renumbered by P_r, column outputs by P_c, invariants unchanged."""
+    tgt = sub or ctx
+    rng = ctx.rng
+    algos = _bip_algos()
+    items = []
+    if fixed is not None:
+        items = [fixed]
+    else:
+        for _ in range(count):
+            nr, nc = rng.randint(2, 6), rng.randint(2, 6)
+            if nr == nc:
+                nc += 1
+            dense = np.array([[rng.choice([0, 0, 1, 1, 2]) for _ in range(nc)] for _ in range(nr)], dtype=float)
+            if dense.sum() == 0:
+                dense[0, 0] = 1
+            pr, pc = list(range(nr)), list(range(nc))
+            rng.shuffle(pr)
+            rng.shuffle(pc)
+            items.append((dense.tolist(), pr, pc, None))
+    for dense, pr, pc, aux in items:
+        b = sparse.csr_matrix(np.array(dense, dtype=float))
+        nr, nc = b.shape
+        aux = aux or _bip_aux(rng, nr, nc)
+        bp = sparse.csr_matrix(_perm_rows(_perm_rows(b.toarray(), pr).T, pc).T)
+        aux_p = _bip_perm_aux(aux, pr, pc)
+        jaux = {k: (v.tolist() if hasattr(v, 'tolist') else v) for k, v in aux.items()}
+        with warnings.catch_warnings():
+            warnings.simplefilter('ignore')
+            for name, (f, tol) in algos.items():
+                sig = {'entry': name, 'relation': 'relabel-bipartite'}
+                desc = {'entry': name, 'biadjacency': dense, 'perm_row': list(pr), 'perm_col': list(pc), 'aux': jaux}
+                key = (name, tuple(map(tuple, dense)), tuple(pr), tuple(pc))
+                try:
+                    y = f(b, aux)
+                except Exception as e:  # noqa
+                    y = ('EXC', type(e).__name__)
+                try:
+                    out = f(bp, aux_p)
+                except Exception as e:  # noqa
+                    out = ('EXC', type(e).__name__)
+                tgt.count('relation:' + name)
+                if isinstance(y, tuple) or isinstance(out, tuple):
+                    tgt.case(key, False, None)
+                    if y == out:
+                        tgt.count('relation-exc:' + name)
+                    else:
+                        tgt.spec_fail(sig, desc, {'why': 'one numbering raises, the other does not', 'base': repr(y)[:80], 'relabelled': repr(out)[:80]})
+                    continue
+                bad = None
+                for k, v in y.items():
+                    want = _perm_rows(v, pr) if k.endswith('_row') else (_perm_rows(v, pc) if k.endswith('_col') else np.asarray(v))
+                    got = np.asarray(out[k])
+                    if got.shape != np.asarray(want).shape or not np.allclose(got, want, atol=tol, rtol=tol, equal_nan=True):
+                        bad = (k, np.asarray(want, dtype=float).tolist(), got.astype(float).tolist())
+                        break
+                tgt.case(key, True, None)
+                tgt.count('relation-evaluated:' + name)
+                if bad:
+                    tgt.spec_fail(sig, desc, {'why': 'output %s for the renumbered biadjacency is not the renumbered output' % bad[0],
+                                              'expected': bad[1], 'relabelled': bad[2]})
+
+
 def _wl_mats(ctx, quick):
     rng = ctx.rng
-    mats = []
+    mats = [sparse.csr_matrix((0, 0), dtype=float)]
+    # non-canonical storage: duplicate column indices and stored zeros (the kernel counts stored entries)
+    mats.append(sparse.csr_matrix((np.array([1., 1., 0., 1., 1.]), np.array([1, 1, 2, 0, 0]), np.array([0, 3, 5, 5])), shape=(3, 3)))
+    mats.append(sparse.csr_matrix((np.array([1., 0., 1., 1., 0., 1.]), np.array([1, 2, 0, 3, 3, 1]), np.array([0, 2, 4, 5, 6])), shape=(4, 4)))
     for n in (1, 2, 3):
         for es in graphs.all_digraphs(n):
             mats.append(graphs.csr_from_edges(n, es))
@@ -377,31 +679,67 @@ def _rel_mats(ctx, quick):
     return mats
 
 
+def _entries_without_evaluation(ctx):
+    rel = {k.split(':', 1)[1] for k in ctx.dist if k.startswith('relation:')}
+    ev = {k.split(':', 1)[1] for k in ctx.dist if k.startswith('relation-evaluated:')}
+    skip = {'WL-twins', 'are_isomorphic', 'dasgupta_cost', 'dasgupta_cost(weights=uniform)', 'tree_sampling_divergence'}
+    return sorted(rel - ev - skip)
+
+
 def run(ctx):
+    from vlib.core import ToolFailure
     quick = ctx.quick
-    evaluate(ctx, wl_cases(ctx, _wl_mats(ctx, quick)))
+    wl = _wl_mats(ctx, quick)
+    evaluate(ctx, wl_cases(ctx, collision_graphs(ctx, 2 if quick else 12), family='hash-collision', max_iters=(-1,)))
+    evaluate(ctx, wl_cases(ctx, wl))
     evaluate(ctx, wl_twin_cases(ctx, twin_graphs(ctx, 6 if quick else 60)))
+    small = [a for a in wl if a.shape[0] <= (5 if quick else 6)]
+    evaluate(ctx, iso_cases(ctx, rng_sample(ctx, small, 90 if quick else 900), quick))
     relation_cases(ctx, _rel_mats(ctx, quick), perms_per=2 if quick else 24)
+    bipartite_relation_cases(ctx, 12 if quick else 300)
+    dead = _entries_without_evaluation(ctx)
+    if dead:
+        raise ToolFailure('relation entries without a single evaluation (every call raised or was skipped): %s' % ', '.join(dead))
+
+
+def rng_sample(ctx, items, k):
+    return ctx.rng.sample(items, min(len(items), k))
 
 
 def search(ctx, pending):
     sub = Sub(ctx)
-    evaluate(sub, wl_cases(ctx, _wl_mats(ctx, True)))
+    wl = _wl_mats(ctx, True)
+    evaluate(sub, wl_cases(ctx, wl))
+    evaluate(sub, wl_twin_cases(sub, twin_graphs(ctx, 4)))
+    evaluate(sub, iso_cases(sub, rng_sample(ctx, [a for a in wl if a.shape[0] <= 5], 60), True))
     relation_cases(ctx, _rel_mats(ctx, True), perms_per=3, sub=sub)
+    bipartite_relation_cases(ctx, 12, sub=sub)
     return sub.found()
 
 
 def replay(ctx, payload):
+    """Re-run the recorded case itself (graph, permutation(s), auxiliary inputs), then its neighbourhood."""
     case = payload.get('case') or {}
     if case.get('f') == 'color_weisfeiler_lehman':
-        g = case['graph']
-        a = sparse.csr_matrix((np.ones(len(g['indices'])), np.array(g['indices']), np.array(g['indptr'])), shape=(g['n'], g['n']))
-        if g['n'] > 14:
-            evaluate(ctx, wl_twin_cases(ctx, [a]))
+        a = _csr_of(case['graph'])
+        if 'perm' in case:
+            evaluate(ctx, wl_twin_cases(ctx, [a], perm_fixed=case['perm']))
         else:
-            evaluate(ctx, wl_cases(ctx, [a]))
+            evaluate(ctx, wl_cases(ctx, [a], family=case.get('family')))
+    elif case.get('f') == 'are_isomorphic':
+        a, b = _csr_of(case['graph']), _csr_of(case['graph2'])
+        evaluate(ctx, iso_cases_pair(ctx, a, b, case.get('max_iter', -1)))
+    elif 'biadjacency' in case:
+        aux = {k: (np.array(v) if isinstance(v, list) else {int(i): x for i, x in v.items()}) for k, v in case['aux'].items()}
+        bipartite_relation_cases(ctx, 0, fixed=(case['biadjacency'], case['perm_row'], case['perm_col'], aux))
     elif 'graph' in case and 'dense' in case['graph']:
         a = sparse.csr_matrix(np.array(case['graph']['dense'], dtype=float))
+        if 'perm' in case and 'aux' in case:
+            x = case['aux']
+            aux = {'sources': list(x['sources']), 'weights': np.array(x['weights'], dtype=float),
+                   'values': {int(k): v for k, v in x['values'].items()}, 'labels': {int(k): v for k, v in x['labels'].items()},
+                   'partition': np.array(x['partition'])}
+            relation_cases(ctx, [a], perms_per=1, fixed=(case['perm'], aux))
         relation_cases(ctx, [a], perms_per=24)
     else:
         run(ctx)
